@@ -70,6 +70,7 @@ def kwargs_for(d, nus, gammas, hs, mig, theta0, frozen, nomut=None, funcs=False)
     if funcs == 'varying':
         for k in range(d):
             kw['nu%d' % (k + 1)] = nus[k]          # callables
+        kw['theta0'] = theta0                      # callable as well
     elif funcs:
         kw['nu1'] = (lambda t, v=nus[0]: v)
         kw['theta0'] = (lambda t, v=theta0: v)
@@ -101,13 +102,14 @@ def replay_steps(ic, phi, xx, d, T, tf, nus, gammas, hs, mig, theta0, frozen, no
             dt = step_size([f(t) for f in nu_funcs])
             nus = [f(t + min(dt, T - t)) for f in nu_funcs]
         this_dt = min(dt, T - t)
+        th_now = theta0(t + this_dt) if callable(theta0) else theta0      # like every other parameter: the value at the end of the step
         for k in range(d):
             if frozen[k] or (nomut is not None and nomut[k]):
                 continue
             idx = [0] * d
             idx[k] = 1
             cellw = w[1] * (w[0] ** (d - 1))
-            amount = this_dt * theta0 / 2.0 / xx[1]
+            amount = this_dt * th_now / 2.0 / xx[1]
             phi[tuple(idx)] += amount / cellw
             influx += amount
         for k in range(d):
@@ -170,10 +172,12 @@ def case_ledger(col, p):
         n = 0
         for name, phi0 in inputs:
             for funcs in ((False, True, 'varying') if p.get('varying') else (False, True)):
-                nus_c = nus
+                nus_c, th_c = nus, theta0
                 if funcs == 'varying':
                     # sizes that really change during the integration (each population shrinks to 1/3..1/6 of its size)
                     nus = [(lambda t, v=nus_c[k], q=k: v / (1.0 + (2.0 + q) * t / T)) for k in range(d)]
+                    # ... and a mutation influx that really changes (grows four-fold)
+                    theta0 = (lambda t, v=th_c: v * (1.0 + 3.0 * t / T))
                 kw = kwargs_for(d, nus, gammas, hs, mig, theta0, frozen, nomut, funcs)
                 info = dict(p, input=name, time_dependent=funcs)
                 try:
@@ -185,7 +189,7 @@ def case_ledger(col, p):
                     out = drv(as_layout(phi0), xx_in, T, **kw)
                 except Exception as e:
                     col.violation('C04:driver%d:raises' % d, info, '%s: %s' % (type(e).__name__, e))
-                    nus = nus_c
+                    nus, theta0 = nus_c, th_c
                     continue
                 col.tick(transitions=1)
                 n += 1
@@ -193,7 +197,7 @@ def case_ledger(col, p):
                 scale = max(1.0, float(np.abs(out).max()), float(np.abs(phi0).max()))
                 if not np.isfinite(out).all():
                     col.violation('C04:driver%d:nonfinite' % d, info, '')
-                    nus = nus_c
+                    nus, theta0 = nus_c, th_c
                     continue
                 # (1) frozen marginals at interior frequencies
                 for k in range(d):
@@ -209,7 +213,7 @@ def case_ledger(col, p):
                         col.observe('frozen_marginal', err / (1e-11 * max(msc, 1e-12)))
                 # (3)+(4) replay through the real kernels and ledger
                 rep, influx, outflow, ns_ = replay_steps(ic, phi0, xx, d, T, tf, nus, gammas, hs, mig, theta0, frozen, nomut, delj)
-                nus = nus_c
+                nus, theta0 = nus_c, th_c
                 if ns_ != nsteps_target and funcs != 'varying':
                     col.violation('harness:C04:step_count', info, {'got': ns_, 'want': nsteps_target})
                 err = float(np.abs(out - rep).max())
